@@ -554,8 +554,8 @@ theorem updateHead_taskIdx (k : TaskKey) (ev : Event) (c c4 : Cond) (h : Stepped
   rw [e]
   exact ht1
 
-theorem completedRetryDecision_true (k : TaskKey) (idx : Nat) (ts : TaskSpec) (ns : Status) (ev : Event)
-    (c c' : Cond) (h : completedRetryDecision E k idx ts ns ev c = (.ok true, c')) : CanBump c' idx := by
+theorem completedRetryDecision_true (k : TaskKey) (idx : Nat) (ts : TaskSpec) (os ns : Status) (ev : Event)
+    (c c' : Cond) (h : completedRetryDecision E k idx ts os ns ev c = (.ok true, c')) : CanBump c' idx := by
   unfold completedRetryDecision at h
   obtain ⟨u, c1, _, h1⟩ := M.bind_ok h
   obtain ⟨ec, c2, _, h2⟩ := M.bind_ok h1
@@ -566,7 +566,7 @@ theorem completedRetryDecision_true (k : TaskKey) (idx : Nat) (ts : TaskSpec) (n
   obtain ⟨hr, e3⟩ := liftOpt_ok hl
   subst e3
   dsimp only at h4
-  generalize hdec : (if c2.st.status.isActive = true then evaluateTaskRetry E r ec else Except.ok false : Except Err Bool) = dec at h4
+  generalize hdec : (if (ns != os && c2.st.status.isActive) = true then evaluateTaskRetry E r ec else Except.ok false : Except Err Bool) = dec at h4
   cases dec with
   | ok b =>
     obtain ⟨e4, e5⟩ := pure_ok h4
@@ -588,6 +588,39 @@ theorem completedRetryDecision_true (k : TaskKey) (idx : Nat) (ts : TaskSpec) (n
     obtain ⟨e6, _⟩ := pure_ok h6
     cases e6
 
+/-- the decision phase asks for a retry only when the event changed the record's status -/
+theorem completedRetryDecision_changed (k : TaskKey) (idx : Nat) (ts : TaskSpec) (os ns : Status) (ev : Event)
+    (c c' : Cond) (h : completedRetryDecision E k idx ts os ns ev c = (.ok true, c')) : ns ≠ os := by
+  unfold completedRetryDecision at h
+  obtain ⟨u, c1, _, h1⟩ := M.bind_ok h
+  obtain ⟨ec, c2, _, h2⟩ := M.bind_ok h1
+  obtain ⟨c2', c3, hget, h3⟩ := M.bind_ok h2
+  obtain ⟨e1, e2⟩ := get_ok hget
+  subst e1 e2
+  obtain ⟨r, c4, hl, h4⟩ := M.bind_ok h3
+  obtain ⟨hr, e3⟩ := liftOpt_ok hl
+  subst e3
+  dsimp only at h4
+  generalize hdec : (if (ns != os && c2.st.status.isActive) = true then evaluateTaskRetry E r ec else Except.ok false : Except Err Bool) = dec at h4
+  cases dec with
+  | ok b =>
+    obtain ⟨e4, e5⟩ := pure_ok h4
+    subst e4 e5
+    split at hdec
+    · rename_i hcond
+      simp only [Bool.and_eq_true] at hcond
+      have h1 := hcond.1
+      intro he
+      subst he
+      revert h1
+      cases ns <;> decide
+    · cases hdec
+  | error e =>
+    obtain ⟨_, c5, _, h5⟩ := M.bind_ok h4
+    obtain ⟨_, c6, _, h6⟩ := M.bind_ok h5
+    obtain ⟨e6, _⟩ := pure_ok h6
+    cases e6
+
 theorem updateRest_inv13 (recur : TaskKey → Event → M Unit)
     (hrec : ∀ nk cmd, Cmd.ofStr? nk.1 = some cmd → Rel inv13Pre (recur nk (.engine cmd)))
     (k ev h) : Rel inv13Pre (updateRest E recur k ev h) := by
@@ -600,15 +633,15 @@ theorem updateTail_inv13 (recur : TaskKey → Event → M Unit)
     (hidx : isCmdName k.1 = false → c.st.taskIdx? k = some h.idx) :
     Inv13 (updateTail E recur k ev h c).2 := by
   unfold updateTail
-  have hm1 : Rel inv13Pre (if h.newStatus.isCompleted then completedRetryDecision E k h.idx h.ts h.newStatus ev
+  have hm1 : Rel inv13Pre (if h.newStatus.isCompleted then completedRetryDecision E k h.idx h.ts h.oldStatus h.newStatus ev
       else pure false : M Bool) := by
     split
-    · exact completedRetryDecision_inv13 E _ _ _ _ _
+    · exact completedRetryDecision_inv13 E _ _ _ _ _ _
     · exact Rel.pure _
-  have hm1k : Rel rkPre (if h.newStatus.isCompleted then completedRetryDecision E k h.idx h.ts h.newStatus ev
+  have hm1k : Rel rkPre (if h.newStatus.isCompleted then completedRetryDecision E k h.idx h.ts h.oldStatus h.newStatus ev
       else pure false : M Bool) := by
     split
-    · exact completedRetryDecision_rk E _ _ _ _ _
+    · exact completedRetryDecision_rk E _ _ _ _ _ _
     · exact Rel.pure _
   have hI5 := hm1.run c hinv
   have hk5 := hm1k.run c
@@ -641,7 +674,7 @@ theorem updateTail_inv13 (recur : TaskKey → Event → M Unit)
         rw [hk5.2]
         exact this
       · split at h5
-        · exact completedRetryDecision_true E _ _ _ _ _ _ _ h5
+        · exact completedRetryDecision_true E _ _ _ _ _ _ _ _ h5
         · obtain ⟨e, _⟩ := pure_ok h5
           cases e
 
